@@ -432,11 +432,32 @@ func writeEvidence(cr *checkRun, tier string, seed int, total, discharged, viola
 		genMS += r.GenMS
 		subgoals += len(r.Obs)
 	}
-	var trusted []string
+	var trusted, verifiedCallees []string
 	for k := range cr.trusted {
-		trusted = append(trusted, "assumed contract: "+displayName(k))
+		assumed := true
+		for _, e := range cr.engines {
+			if c := e.contracts[k]; c != nil {
+				assumed = c.Trusted
+				break
+			}
+		}
+		if assumed {
+			trusted = append(trusted, "assumed contract: "+displayName(k))
+		} else {
+			verifiedCallees = append(verifiedCallees, displayName(k))
+		}
 	}
 	sort.Strings(trusted)
+	sort.Strings(verifiedCallees)
+	var siteAssumes []string
+	for _, e := range cr.engines {
+		e.mu.Lock()
+		for k, v := range e.siteAssumes {
+			siteAssumes = append(siteAssumes, "site assumption "+k+": "+v)
+		}
+		e.mu.Unlock()
+	}
+	sort.Strings(siteAssumes)
 	trusted = append(trusted, "the VC generator gcv itself (guarded by the must-fail corpus /verif/selftest)", "go/ssa lowering of Go (x/tools v0.29.0), int = 64 bit, slice lengths <= 2^48", "z3 5.1.0 / cvc5 1.0 / z3 4.8.12")
 	var unk []string
 	for k, n := range cr.unknown {
@@ -445,6 +466,7 @@ func writeEvidence(cr *checkRun, tier string, seed int, total, discharged, viola
 	sort.Strings(unk)
 	assumptions := append([]string{}, cr.assumes...)
 	assumptions = append(assumptions, "machine integers are modelled exactly (mathematical Int with explicit wrap-around); stream offsets assumed < 2^62")
+	assumptions = append(assumptions, siteAssumes...)
 	assumptions = append(assumptions, unk...)
 	for _, n := range cr.spec.Notes {
 		assumptions = append(assumptions, n)
